@@ -22,7 +22,7 @@ from ..lin import Lin, lin, ge, le, lt, gt, eq, entails
 from ..cfg import call_closure, call_path
 from ..facts import VERIF, load_program, library_units, units_matching, children, strip_all_casts, walk, \
     CALL_KINDS, AnalysisBroken
-from ..rules import callee_is, call_args, field_name, object_of
+from ..rules import callee_is, call_args, field_name, object_of, mentions_var
 from ..report import Check
 
 
@@ -647,6 +647,56 @@ def mentions_field_name(node, name):
     return any(x.get('k') == 'MemberExpr' and x.get('ref', {}).get('name') == name for x in walk(node))
 
 
+def r15_move_resets_source(chk, prog, rule='R15'):
+    """no double deallocation: a class of the argument handling whose destructor deletes a pointer member and that
+    can be moved takes the pointer over AND empties the source - the move constructor (and move assignment) stores
+    nullptr into (or exchanges) the source's member on every path; otherwise both objects delete the same array"""
+    n = 0
+    for cn, c in sorted(prog.classes.items()):
+        if not (cn.startswith('celma::prog_args::') or cn.startswith('celma::appl::')):
+            continue
+        dt = [f for f in prog.functions if f.cls == cn and f.short.startswith('~') and f.body is not None]
+        owned = set()
+        for f in dt:
+            for x in f.walk():
+                if x.get('k') == 'CXXDeleteExpr':
+                    for y in walk(x):
+                        if y.get('k') == 'MemberExpr' and y['ref'].get('dk') == 'Field' and \
+                                (y.get('t') or '').rstrip().endswith('*'):
+                            owned.add(y['ref'].get('name'))
+        if not owned:
+            continue
+        movers = [f for f in prog.functions if f.cls == cn and f.body is not None and len(f.params) == 1 and
+                  f.params[0]['t'].rstrip().endswith('&&') and (f.d.get('ctor') or f.short == 'operator=')]
+        for f in movers:
+            src = f.params[0]['name']
+            for fld in sorted(owned):
+                n += 1
+                resets = []
+                for x in f.walk():
+                    if x.get('k') == 'BinaryOperator' and x.get('op') == '=':
+                        l = strip_all_casts(children(x)[0])
+                        r = strip_all_casts(children(x)[1])
+                        if l.get('k') == 'MemberExpr' and l['ref'].get('name') == fld and mentions_var(l, src) and \
+                                r.get('k') in ('CXXNullPtrLiteralExpr', 'GNUNullExpr', 'IntegerLiteral'):
+                            resets.append(x)
+                    elif x.get('k') == 'CallExpr' and (x.get('callee') or '').split('::')[-1] in ('exchange', 'swap') and \
+                            any(field_name(a) == fld and mentions_var(a, src) for a in call_args(x)):
+                        resets.append(x)
+                for i in f.inits:
+                    if isinstance(i.get('init'), dict):
+                        for y in walk(i['init']):
+                            if y.get('k') == 'CallExpr' and (y.get('callee') or '').split('::')[-1] == 'exchange' and \
+                                    any(field_name(a) == fld and mentions_var(a, src) for a in call_args(y)):
+                                resets.append(y)
+                in_body = [r for r in resets if f.cfg.position(r) is not None]
+                ok = bool(resets) and (len(in_body) < len(resets) or
+                                       not f.cfg.must_pass_through(lambda n_: any(n_ is r for r in in_body)))
+                chk.check(ok, rule, f.name, 'the moved-from object gives up the array it owned (%s)' % fld, f.loc(),
+                          'the source keeps its pointer: both destructors delete[] the same array')
+    chk.require(n >= 1, 'movable classes that own an array: %d' % n)
+
+
 def run(chk):
     drv = os.path.join(VERIF, 'drivers', 'prog_args_dest.cpp')
     units = units_matching('library/prog_args/', 'library/appl/arg_string_2_array.cpp', 'library/common/') + [drv]
@@ -695,6 +745,8 @@ def run(chk):
     r13_owning_members(chk, prog)
     chk.rule('R14', 'the nesting of argument files is bounded', 1)
     r14_argument_file_nesting(chk, prog)
+    chk.rule('R15', 'a moved-from object gives up the array it owned', 1)
+    r15_move_resets_source(chk, prog)
     chk.rule('R6', 'ArgListIterator: the cursor invariant (four cases) is established and preserved; every argv[ i] '
              'and word[ j] access is inside', 40)
     from . import c04_cursor
